@@ -22,6 +22,8 @@ import hplugins as H  # noqa: E402
 
 WRONG = np.dtype([(("start time", "time"), np.int64), (("exclusive end time", "endtime"), np.int64),
                   (("not what was declared", "w"), np.float32)])
+SAMESIZE = np.dtype([(("start time", "time"), np.int64), (("exclusive end time", "endtime"), np.int64),
+                     (("payload", "v"), np.float64)])       # declared names, declared item size, another field type
 CHUNKS = [dict(s=0, e=10, rows=[[1, 3, 5], [4, 6, 7]]), dict(s=10, e=20, rows=[[11, 12, 1], [13, 15, 2]]),
           dict(s=20, e=30, rows=[[21, 25, 2], [26, 29, 3]])]
 POS = dict(first=0, middle=1, last=2)
@@ -32,6 +34,10 @@ def corrupt(plugin, r, start, end, viol, dtype_name):
     if viol == "wrong_dtype_bare":
         w = np.zeros(len(r), WRONG)
         w["time"], w["endtime"] = r["time"], r["endtime"]
+        return w
+    if viol == "wrong_types_bare":
+        w = np.zeros(len(r), SAMESIZE)
+        w["time"], w["endtime"], w["v"] = r["time"], r["endtime"], r["v"] + 0.5
         return w
     if viol == "wrong_dtype_chunk":
         w = np.zeros(len(r), WRONG)
@@ -94,7 +100,7 @@ def build(kind, viol, pos):
                         else:
                             e = e - 1
                             r = r[r["endtime"] <= e]
-                    elif viol == "wrong_dtype_bare":
+                    elif viol in ("wrong_dtype_bare", "wrong_types_bare"):
                         return corrupt(self, r, s, e, viol, "src")
                     else:
                         x = corrupt(self, r, s, e, viol, "src")
